@@ -344,6 +344,7 @@ def check(env, rep, tier):
                    {"file": b["span"]["f"], "line": b["span"]["l"], "fn": entry})
 
         check_elementwise(prog, rep)
+        check_first_getter(prog, rep)
         # ---- C06.7 the numeric convenience accessors hand the number over unchanged
         b = find_body(prog, "packet::Packet::set_observe_value")
         g = find_body(prog, "packet::Packet::get_observe_value")
@@ -404,6 +405,43 @@ def check(env, rep, tier):
 
 
 ELEMENTWISE_OK = {"map", "collect", "cloned", "copied", "by_ref", "into_iter", "iter", "next", "for_each", "size_hint"}
+
+
+def check_first_getter(prog, rep):
+    """C06.12: get_first_option_as decodes the front element and nothing else - the conversion is not inside a loop
+    (no 'first one that decodes' walk) and no searching adapter (find / find_map / filter / skip_while ...) picks
+    another element"""
+    import interp as _interp
+    entry = "packet::Packet::get_first_option_as"
+    b = find_body(prog, entry)
+    if b is None:
+        rep.missing("C06.12", entry)
+        return
+    site = {"file": b["span"]["f"], "line": b["span"]["l"], "fn": entry}
+    fam = [x for x in prog.bodies.values() if not x.get("promoted") and (x["id"] == b["id"] or x["path"].startswith(b["path"] + "::{closure"))]
+    in_loop, bad_adapters, n_conv = [], [], 0
+    for x in fam:
+        info = _interp.BodyInfo(x)
+        loop_blocks = set()
+        for h, bs in info.loops.items():
+            loop_blocks |= set(bs)
+        for bi, bb in enumerate(x["blocks"]):
+            t = bb["term"]
+            if t["k"] != "call" or bb.get("cleanup"):
+                continue
+            pth = (t.get("resolved") or t.get("callee") or {}).get("path", "") or ""
+            nm = pth.rsplit("::", 1)[-1]
+            if nm in ("try_from", "try_into") and "convert" in pth:
+                n_conv += 1
+                if bi in loop_blocks:
+                    in_loop.append(bb["tspan"]["l"])
+            if ("core::iter::traits::iterator::Iterator::" in pth or pth.startswith("core::iter::adapters::")) \
+                    and nm in ("find", "find_map", "filter", "filter_map", "skip_while", "skip", "position", "rev", "last", "nth", "max", "min", "flatten", "flat_map"):
+                bad_adapters.append(nm)
+    rep.ob("C06.12", "first-getter|front-element-only", n_conv >= 1 and not in_loop and not bad_adapters,
+           "get_first_option_as does not decode exactly the first stored value: %s" % (
+               "the conversion sits in a loop (line %s)" % in_loop if in_loop else "a searching adapter is used: %s" % sorted(set(bad_adapters)) if bad_adapters
+               else "no conversion call found"), site, sample={"rule": "C06.12", "conversions": n_conv})
 
 
 def check_elementwise(prog, rep):
